@@ -30,6 +30,11 @@ pub struct Case {
   /// the reference cycle planted by the generator, if any (names the operator shape)
   #[serde(default)]
   pub planted: Option<String>,
+  /// front-end stage: the complete command line (the rule text is `rule.yml`) and the standard input
+  #[serde(default)]
+  pub args: Vec<String>,
+  #[serde(default)]
+  pub stdin: Option<String>,
 }
 
 // ---------------------------------------------------------------------------------------
@@ -152,7 +157,7 @@ fn docv() -> impl Strategy<Value = DocV> {
       prop::option::of((any::<u8>(), any::<bool>(), prop::option::of(rulev()))),
       any::<u8>(),
       prop::collection::vec((0u8..10, v_strategy()), 0..3),
-      prop::option::weighted(0.25, (0u8..10, 0u8..3)),
+      prop::option::weighted(0.25, (0u8..10, 0u8..6)),
       prop::option::weighted(0.05, 0u8..4),
       0u8..10,
     ),
@@ -284,9 +289,12 @@ fn render_doc(d: &DocV, idx: usize) -> Y {
   }
   if let Some((op, len)) = d.cycle {
     // reference graphs: utilities wired into a cycle through one operator
-    let n = len as usize + 1;
+    // len >= 3: the cycle closes through the document itself (a global utility that reaches
+    // itself through its own local utilities)
+    let through_doc = len >= 3;
+    let n = if through_doc { len as usize - 2 } else { len as usize + 1 };
     for i in 0..n {
-      let next = ys(&format!("c{}", (i + 1) % n));
+      let next = if through_doc && i + 1 == n { ys(&format!("doc{}", idx % 2)) } else { ys(&format!("c{}", (i + 1) % n)) };
       let mut me = Mapping::new();
       me.insert(ys("matches"), next);
       let me = Y::Mapping(me);
@@ -654,6 +662,8 @@ pub fn interpret(ch: &Choice, _st: &mut Stats) -> Option<Case> {
         yaml: text,
         cli: *cli,
         planted,
+        args: vec![],
+        stdin: None,
       }
     }
     Choice::Mutated { seed, muts, role, cli } => {
@@ -716,6 +726,8 @@ pub fn interpret(ch: &Choice, _st: &mut Stats) -> Option<Case> {
         yaml: String::from_utf8_lossy(&text).into_owned(),
         cli: *cli,
         planted: None,
+        args: vec![],
+        stdin: None,
       }
     }
     Choice::Raw { bytes, role } => Case {
@@ -723,6 +735,8 @@ pub fn interpret(ch: &Choice, _st: &mut Stats) -> Option<Case> {
       yaml: String::from_utf8_lossy(bytes).into_owned(),
       cli: false,
       planted: None,
+      args: vec![],
+      stdin: None,
     },
   })
 }
@@ -829,6 +843,13 @@ fn cli_body(case: &Case) -> CheckResult {
   dir.write("src/b.py", b"print(a)\nfoo(1)\n");
   let limit = std::time::Duration::from_secs(15);
   let out = match case.role {
+    Role::Rule if !case.args.is_empty() => {
+      dir.write("rule.yml", case.yaml.as_bytes());
+      dir.write("src/deep/c.ts", b"foo(2);\nconsole.log(b);\n");
+      dir.write("src/x.html", b"<p title=\"t\">x</p>\n<script>\nfoo(3);\n</script>\n");
+      let argv: Vec<&str> = case.args.iter().map(|a| a.as_str()).collect();
+      cli::sgv_once(&argv, &dir.path, case.stdin.as_ref().map(|t| t.as_bytes()), limit)
+    }
     Role::Rule => {
       dir.write("rule.yml", case.yaml.as_bytes());
       cli::sgv_once(&["scan", "-r", "rule.yml", "--json=stream", "src"], &dir.path, None, limit)
@@ -870,6 +891,10 @@ fn cli_body(case: &Case) -> CheckResult {
     // re-run twice before calling it a hang
     for _ in 0..2 {
       let again = match case.role {
+        Role::Rule if !case.args.is_empty() => {
+          let argv: Vec<&str> = case.args.iter().map(|a| a.as_str()).collect();
+          cli::sgv_once(&argv, &dir.path, case.stdin.as_ref().map(|t| t.as_bytes()), limit * 2)
+        }
         Role::Rule => cli::sgv_once(&["scan", "-r", "rule.yml", "--json=stream", "src"], &dir.path, None, limit * 2),
         Role::UtilRule => cli::sgv_once(&["scan", "--json=stream", "src"], &dir.path, None, limit * 2),
         Role::TestFile => cli::sgv_once(&["test", "--skip-snapshot-tests"], &dir.path, None, limit * 2),
@@ -910,7 +935,10 @@ pub fn check(case: &Case, st: &mut Stats) -> CheckResult {
     st.nontrivial(&(format!("{:?}", case.role), &case.yaml, case.cli));
   }
   st.label(&format!("role_{:?}", case.role));
-  if case.cli || matches!(case.role, Role::TestFile | Role::ProjectConfig) {
+  if !case.args.is_empty() {
+    st.label(&format!("front_end_{}", case.args.iter().filter(|a| a.starts_with("--") || *a == "-U").cloned().collect::<Vec<_>>().join("")));
+  }
+  if case.cli || !case.args.is_empty() || matches!(case.role, Role::TestFile | Role::ProjectConfig) {
     st.label("via_cli");
     return cli_body(case).map_err(|f| {
       let rule_role = matches!(case.role, Role::Rule | Role::UtilRule);
@@ -950,6 +978,118 @@ pub fn check(case: &Case, st: &mut Stats) -> CheckResult {
   }
 }
 
+// ---------------------------------------------------------------------------------------
+// front ends: well-formed rule documents over the top-level attributes (severity, files,
+// ignores, message, note, labels, url, metadata, fix) through every reporter of `scan`
+
+#[derive(Clone, Debug)]
+pub struct FeChoice {
+  docs: Vec<(u8, u8, Option<u8>, Option<u8>, u8, u8, u8)>,
+  front: u8,
+  overrides: u8,
+  src: u8,
+}
+
+pub fn fe_strategy() -> BoxedStrategy<FeChoice> {
+  (
+    prop::collection::vec((0u8..6, 0u8..7, prop::option::weighted(0.4, 0u8..8), prop::option::weighted(0.3, 0u8..8), 0u8..6, 0u8..8, any::<u8>()), 1..4),
+    0u8..12,
+    0u8..8,
+    0u8..5,
+  )
+    .prop_map(|(docs, front, overrides, src)| FeChoice { docs, front, overrides, src })
+    .boxed()
+}
+
+const FE_GLOBS: &[&str] = &["**/*.js", "src/**", "*.js", "src/a.js", "**/deep/**", "**/*.{ts,js}", "nothing/**", "**"];
+const FE_STDIN: &[&str] = &["foo(1);\nconsole.log(a);\n", "", "foo(\"é\");\n", "foo(1); foo(2);\nfoo(\n  3\n);\n", "\u{feff}foo(1)"];
+
+pub fn interpret_fe(ch: &FeChoice, _st: &mut Stats) -> Option<Case> {
+  let mut docs = vec![];
+  for (i, (rule, sev, files, ignores, msg, extra, bits)) in ch.docs.iter().enumerate() {
+    let (body, var) = [
+      ("rule:\n  pattern: foo($A)\n", Some("A")),
+      ("rule:\n  pattern: console.log($$$ARGS)\n", None),
+      ("rule:\n  kind: number\n", None),
+      ("rule:\n  pattern: foo($A)\n  inside: {kind: expression_statement, stopBy: end}\n", Some("A")),
+      ("rule:\n  kind: call_expression\n  has: {kind: arguments, has: {pattern: $A, kind: number}}\n", Some("A")),
+      ("rule:\n  kind: program\n", None),
+    ][*rule as usize % 6];
+    let mut y = format!("id: fe{i}\nlanguage: {}\n{body}", ["JavaScript", "JavaScript", "TypeScript", "JavaScript"][(*bits as usize >> 6) % 4]);
+    if let Some(sv) = ["error", "warning", "info", "hint", "off"].get(*sev as usize) {
+      y.push_str(&format!("severity: {sv}\n"));
+    }
+    if let Some(f) = files {
+      y.push_str(&format!("files: ['{}']\n", FE_GLOBS[*f as usize % FE_GLOBS.len()]));
+    }
+    if let Some(f) = ignores {
+      y.push_str(&format!("ignores: ['{}']\n", FE_GLOBS[*f as usize % FE_GLOBS.len()]));
+    }
+    match msg {
+      0 => {}
+      1 => y.push_str("message: found $A and $$$ARGS\n"),
+      2 => y.push_str("message: ''\n"),
+      3 => y.push_str("message: |\n  two\n  lines $A\n"),
+      4 => y.push_str("message: \"é😀 $NOPE\"\n"),
+      _ => y.push_str(&format!("message: {}\n", "long ".repeat(300))),
+    }
+    if extra & 1 != 0 {
+      y.push_str("note: |\n  a note\n  over lines\n");
+    }
+    if extra & 2 != 0 {
+      y.push_str("url: https://example.com/é\nmetadata:\n  k: [1, {x: y}]\n");
+    }
+    if extra & 4 != 0 {
+      if let Some(v) = var {
+        y.push_str(&format!("labels:\n  {v}:\n    style: {}\n    message: label é\n", ["primary", "secondary"][(*bits & 1) as usize]));
+      }
+    }
+    match bits >> 1 & 3 {
+      1 => y.push_str("fix: bar()\n"),
+      2 => y.push_str("fix: |\n  bar(\n  )\n"),
+      _ => {}
+    }
+    docs.push(y);
+  }
+  let mut args: Vec<String> = vec!["scan".into(), "-r".into(), "rule.yml".into()];
+  let mut stdin = None;
+  match ch.front {
+    0 => args.push("--json=stream".into()),
+    1 => {}
+    2 => args.push("--format=github".into()),
+    3 => args.push("--format=sarif".into()),
+    4 => args.extend(["--stdin".to_string(), "--json".into()]),
+    5 => args.push("--stdin".into()),
+    6 => args.push("--report-style=short".into()),
+    7 => args.push("-U".into()),
+    8 => args.extend(["--json=pretty".to_string(), "--include-metadata".into()]),
+    9 => args.extend(["--inspect".to_string(), "entity".into()]),
+    10 => args.extend(["--stdin".to_string(), "--format=github".into()]),
+    _ => args.extend(["--report-style=medium".to_string(), "-C".into(), "2".into()]),
+  }
+  if matches!(ch.front, 4 | 5 | 10) {
+    stdin = Some(FE_STDIN[ch.src as usize % FE_STDIN.len()].to_string());
+  } else {
+    args.push("src".into());
+  }
+  match ch.overrides {
+    1 => args.push("--error".into()),
+    2 => args.push("--off=fe0".into()),
+    3 => args.push("--hint".into()),
+    4 => args.push("--off".into()),
+    5 => args.push("--warning=fe1".into()),
+    _ => {}
+  }
+  Some(Case {
+    role: Role::Rule,
+    yaml: docs.join("---\n"),
+    cli: true,
+    planted: None,
+    args,
+    stdin,
+  })
+}
+
 pub fn child(path: &Path) -> i32 {
   child_case::<Case>(path, body)
 }
@@ -957,7 +1097,7 @@ pub fn child(path: &Path) -> i32 {
 pub fn run(cfg: &RunCfg) -> i32 {
   let mut report = Report::new(
     cfg,
-    "case = text offered as rule file / utility-rule file / test file / sgconfig.yml from three generators: structured documents (well-formed rule objects over all keys with adversarial values: empty / one-byte / multi-byte sources, invalid and pathological regexes, extreme numbers in nthChild / range / startChar, huge strings, unknown kinds and fields, empty all/any, 150-deep nesting, duplicate ids, rewriters without fix, expanding rewriter fixes, utilities wired into cycles through 10 operator shapes), byte/line/token mutations of 9 seed documents, raw bytes. Each library case runs in a child process: load must return Ok or Err; loaded rules scan 6 sources of their language through CombinedScan (both modes) generating messages and fixes; a panic, abort, stack overflow or hang is the violation. ~5% of the cases (and all test/config files) go through the real CLI with a watchdog. Non-trivial = distinct documents containing a `rule:` key (reach rule construction) or test/config roles.",
+    "case = text offered as rule file / utility-rule file / test file / sgconfig.yml from three generators: structured documents (well-formed rule objects over all keys with adversarial values: empty / one-byte / multi-byte sources, invalid and pathological regexes, extreme numbers in nthChild / range / startChar, huge strings, unknown kinds and fields, empty all/any, 150-deep nesting, duplicate ids, rewriters without fix, expanding rewriter fixes, utilities wired into cycles through 10 operator shapes), byte/line/token mutations of 9 seed documents, raw bytes. Each library case runs in a child process: load must return Ok or Err; loaded rules scan 6 sources of their language through CombinedScan (both modes) generating messages and fixes; a panic, abort, stack overflow or hang is the violation. ~5% of the cases (and all test/config files) go through the real CLI with a watchdog. Stage front-ends: 1-3 well-formed rules over the top-level attributes (all five severities, files / ignores globs, message forms, note, url, metadata, labels, fix) through every reporter of `scan` (JSON styles, rich / medium / short, github, sarif, --stdin, -U, --inspect entity) with severity overrides. Non-trivial = distinct documents containing a `rule:` key (reach rule construction) or test/config roles.",
   );
   report.assume("a hang is reported only after three attempts with growing limits");
   let known = Known::load(&cfg.prop);
@@ -968,6 +1108,9 @@ pub fn run(cfg: &RunCfg) -> i32 {
   let total = cfg.budget(20_000, 300_000);
   let o = drive(cfg, "documents", total, &known, strategy, interpret, check);
   report.absorb("documents", o);
+  let total = cfg.budget(1_500, 40_000);
+  let o = drive(cfg, "front-ends", total, &known, fe_strategy, interpret_fe, check);
+  report.absorb("front-ends", o);
   cli::cleanup_work_root();
   crate::fuzz::stage(cfg, &mut report, &known, 40000);
   report.finish()
@@ -1069,6 +1212,8 @@ pub fn decode_bytes(data: &[u8]) -> Case {
         yaml: text,
         cli: false,
         planted: None,
+        args: vec![],
+        stdin: None,
       }
     }
     2 => {
@@ -1097,6 +1242,8 @@ pub fn decode_bytes(data: &[u8]) -> Case {
       yaml: String::from_utf8_lossy(b.rest()).into_owned(),
       cli: false,
       planted: None,
+      args: vec![],
+      stdin: None,
     },
   }
 }
@@ -1246,10 +1393,18 @@ pub fn may_contain_round_trip_cycle(yaml: &str) -> bool {
     if let (Some(id), Some(rule)) = (m.get("id").and_then(|i| i.as_str()), m.get("rule")) {
       let mut out = vec![];
       refs(rule, 0, &mut out);
-      // local utilities are reachable from the global one: fold their edges in
-      for (t, o) in out.clone() {
+      // local utilities are reachable from the global one: fold their edges in (transitively)
+      let mut at = 0;
+      while at < out.len() && out.len() < 200 {
+        let (t, o) = out[at].clone();
+        at += 1;
         if let Some(inner) = graph.get(&t) {
-          out.extend(inner.iter().map(|(t2, o2)| (t2.clone(), o | o2)));
+          for (t2, o2) in inner {
+            let e = (t2.clone(), o | o2);
+            if !out.contains(&e) {
+              out.push(e);
+            }
+          }
         }
       }
       globals.entry(id.to_string()).or_default().extend(out);
